@@ -9,6 +9,8 @@ package persisters
 //@   modifies *, rowWrites
 //@   ensures [oblivious] err == nil ==> rowWrites > old(rowWrites)
 //@   at call Update#1 assert [writes-the-incoming-row] hdr.Deleted == old(dbhdr.Deleted) && hdr.Record == old(dbhdr.Record) && hdr.Block == old(dbhdr.Block) && hdr.Lastknownrecord == old(dbhdr.Lastknownrecord) && hdr.Lastknownblock == old(dbhdr.Lastknownblock) && hdr.Size == old(dbhdr.Size) && hdr.Typeflag == old(dbhdr.Typeflag) && hdr.Mode == old(dbhdr.Mode) && hdr.Linkname == old(dbhdr.Linkname) && hdr.Paxrecords == old(dbhdr.Paxrecords)
+//@   at call Where#1 assert [lookup-uses-stored-name] unboxStr(arg_args[0]) == hdr.Name
+//@   at call Where#2 assert [lookup-uses-stored-linkname] unboxStr(arg_args[0]) == hdr.Linkname
 //@   at call Update#1 assert [name-kept-when-initializing] initializing ==> hdr.Name == old(dbhdr.Name)
 
 //@ func (*MetadataPersister).DeleteHeader
